@@ -12,6 +12,13 @@ import (
 )
 
 func (s *server) ClaimTask(c context.Context, r *pb.ClaimTaskRequest) (*pb.ClaimTaskResponse, error) {
+	if r.ProcessId == "" {
+		return nil, status.Error(codes.InvalidArgument, "The field processId is required.")
+	}
+	if r.Ttl < 0 {
+		return nil, status.Error(codes.InvalidArgument, "The field ttl must be greater than or equal to zero")
+	}
+
 	res, err := s.api.Process(r.RequestId, &t_api.Request{
 		Kind: t_api.ClaimTask,
 		ClaimTask: &t_api.ClaimTaskRequest{
@@ -23,9 +30,6 @@ func (s *server) ClaimTask(c context.Context, r *pb.ClaimTaskRequest) (*pb.Claim
 	})
 	if err != nil {
 		return nil, status.Error(s.code(err.Code), err.Error())
-	}
-	if r.Ttl < 0 {
-		return nil, status.Error(codes.InvalidArgument, "The field ttl must be greater than or equal to zero")
 	}
 
 	util.Assert(res.ClaimTask != nil, "result must not be nil")
